@@ -52,7 +52,7 @@ def run(ctx):
     R.rule("C15-R2", "(shared with C12) literal escaping invertible and position independent", floor=2)
     R.rule("C15-R2b", "(shared with C12) delimiter agreement", floor=6)
     R.rule("C15-R3", "every expression node prints all stored children", floor=15)
-    R.rule("C15-R4", "parenthesesNode prints ( child )", floor=1)
+    R.rule("C15-R4", "parenthesesNode prints ( child ); no printer adds a second pair around it", floor=2)
 
     tab = operator_table(prog)
     spellings = sorted({sp for (sp, pr, t) in tab.values()})
@@ -210,6 +210,26 @@ def run(ctx):
     lits = [literal(x) for x in seq]
     ok = len(seq) >= 3 and lits[0] in (40, "(") and lits[-1] in (41, ")") and any("this->value" in noid(render(x, False)) for x in seq[1:-1])
     R.ob("C15-R4", ok, pp.q, "prints '(' value ')'", "%s:%d" % (pp.relfile, pp.d["line"]), "explicit grouping survives printing")
+    # a printer that writes its own `(`...`)` around an operand must not do so when the operand is a parenthesesNode (which prints its own pair):
+    # otherwise every print -> parse cycle adds a pair and the re-parsed tree never equals the printed one
+    for f in prog.funcs.values():
+        if f.d.get("tmpl") == "inst" or not f.q.startswith(L) or not f.q.endswith("::print") or f.q == pp.q:
+            continue
+        for n in f.walk():
+            if n["k"] == "CXXOperatorCallExpr" and n.get("op") == "<<":
+                par = f.parent.get(n["i"])
+                if par is not None and par["k"] == "CXXOperatorCallExpr" and par.get("op") == "<<" and strip(kids(par)[1]) is n:
+                    continue
+                ch = stream_chain(n)[1:]
+                lits = [literal(o) for o in ch]
+                opens = [i for i, v in enumerate(lits) if isinstance(v, str) and v.endswith("(") and len(v) > 1 and v[:-1].isalpha()]
+                for i in opens:
+                    if i + 1 < len(ch) and "this->value" in noid(render(ch[i + 1], False)):
+                        fs = {(noid(k).replace(" ", ""), pol) for (k, pol) in f.cfg.facts_at(n)}
+                        guarded = any((not pol) and "exprNodeType::parentheses" in k for (k, pol) in fs)
+                        R.ob("C15-R4", guarded, f.q, "keyword( operand ) only when the operand is not parenthesised itself", f.site(n),
+                             "no second pair around a parenthesesNode" if guarded else
+                             "`%s` is printed around an operand that may already be a parenthesised expression: %s(a) prints as %s((a)), one more pair on every print" % (lits[i], lits[i][:-1], lits[i][:-1]))
 
 
 META = {
